@@ -724,7 +724,8 @@ fn sc_many_farms_exact_thirds_long_farm(t: &mut Tracer) {
         let f = w.fee_funds(&c);
         w.create_farm(who, lp, Some(start), Some(end), c, Some(id.into()), &f)
     };
-    mk(&mut w, &e, "nine", &lp, 1, 113, coin(1008, "uusd"));
+    // in identifier order m-nine is the twelfth farm; its owner has no other farm
+    mk(&mut w, &c, "nine", &lp, 1, 113, coin(1008, "uusd"));
     mk(&mut w, &e, "huge", &lp, 1, 5, coin(12_000_000_000_000_000_000_000, "uweth"));
     for k in 0..10u64 {
         let who = if k % 2 == 0 { e.clone() } else { o.clone() };
@@ -739,7 +740,7 @@ fn sc_many_farms_exact_thirds_long_farm(t: &mut Tracer) {
     w.claim(&b, None, &[]);
     w.claim(&c, Some(1), &[]);
     w.expand_farm(&e, "m-long", &lp2, coin(6, "uusd"), &[coin(6, "uusd")]);
-    w.expand_farm(&e, "m-nine", &lp, coin(18, "uusd"), &[coin(18, "uusd")]);
+    w.expand_farm(&c, "m-nine", &lp, coin(18, "uusd"), &[coin(18, "uusd")]);
     w.advance(DAY);
     w.claim(&c, None, &[]);
     w.claim(&d, None, &[]);
@@ -829,6 +830,36 @@ fn sc_config_update_shapes(t: &mut Tracer) {
     w.claim(&b, None, &[]);
     w.pos_close(&b, "u-p", None, &[]);
     w.pos_withdraw(&b, "u-p", Some(true), &[]);
+}
+
+/// the emergency flag on positions that are already unlocked: at the expiry second, 12 hours and 11 days later - no penalty
+fn sc_emergency_flag_after_unlock(t: &mut Tracer) {
+    let mut w = W::new(SysCfg::default(), 1, t, "emergency_flag_after_unlock");
+    let lp = w.lps[0].clone();
+    let (o, b, c) = (w.user(0), w.user(1), w.user(2));
+    let f = w.fee_funds(&coin(40_000, "uweth"));
+    w.create_farm(&o, &lp, Some(1), Some(21), coin(40_000, "uweth"), Some("f".into()), &f);
+    for id in ["x", "y", "z"] {
+        w.pos_create(&b, Some(id.into()), DAY, None, &[coin(1_000_000_000, lp.clone())]);
+    }
+    w.pos_create(&c, Some("other".into()), DAY, None, &[coin(1_000_000_000, lp.clone())]);
+    w.advance(DAY);
+    w.claim(&b, None, &[]);
+    for id in ["u-x", "u-y", "u-z"] {
+        w.pos_close(&b, id, None, &[]);
+    }
+    w.advance(DAY - 1);
+    w.pos_withdraw(&b, "u-x", Some(true), &[]); // one second early: still a penalty
+    w.pos_create(&b, Some("x".into()), DAY, None, &[coin(1_000_000_000, lp.clone())]);
+    w.advance(1);
+    w.pos_withdraw(&b, "u-y", Some(true), &[]); // the expiry second
+    w.advance(DAY / 2);
+    w.pos_withdraw(&b, "u-z", Some(true), &[]);
+    w.claim(&b, None, &[]);
+    w.pos_close(&b, "u-x", None, &[]);
+    w.advance(11 * DAY);
+    w.pos_withdraw(&b, "u-x", Some(true), &[]);
+    w.claim(&c, None, &[]);
 }
 
 /// instantiate validation of the farm manager: every class of the four validated fields (S_ guards)
@@ -1105,6 +1136,7 @@ pub fn run(rng: &mut StdRng, thorough: bool, t: &mut Tracer) {
     sc_many_farms_exact_thirds_long_farm(t);
     sc_alternating_lp_positions(t);
     sc_unlock_range_narrowed(t);
+    sc_emergency_flag_after_unlock(t);
     sc_instantiate_shapes(t);
     sc_config_update_shapes(t);
     sc_position_limits(t);
